@@ -12,3 +12,4 @@ open Model.SlicesGen
 #print axioms fromEntry_eq
 #print axioms fromEntryLength_eq
 #print axioms fromJSON_eq
+#print axioms fromMultihash_eq
